@@ -285,6 +285,9 @@ def subprocess_timeout():
     return subprocess.TimeoutExpired
 
 
+SOURCE_PINNED = {'C08', 'C09', 'C10', 'C11', 'C13', 'C14', 'C17', 'C18', 'C19', 'C20'}
+
+
 def run_check(prop, tier, seed, workdir, t_start, jobs):
     mod = importlib.import_module('p' + prop)
     evidence_path = os.path.join(os.environ.get('VERIF_EVIDENCE_DIR') or os.path.join(VERIF, 'evidence'),
@@ -297,10 +300,17 @@ def run_check(prop, tier, seed, workdir, t_start, jobs):
         #    re-checks the theorems against what the source says now.  The driver imports both, so both are always
         #    regenerated; a translation failure is an obligation problem for the properties whose theorems depend on the file.
         targets = getattr(mod, 'LEAN_TARGETS', [f'BridgeVerif.Props.{prop}']) + ['driver']
+        audit_props = list(getattr(mod, 'AUDIT_PROPS', None) or [prop])
+        if prop in SOURCE_PINNED:
+            # these properties rest on scanners written for particular regular expressions / on the literal queue
+            # messages: the texts extracted from the source must still be the ones the models were written for
+            targets.insert(0, 'BridgeVerif.Props.Source')
+            audit_props.append('Source')
+        import translate_consts
         import translate_schema
         import translate_score
         closure = set(common.import_closure([t for t in targets if t != 'driver']))
-        for modname, tr in (('Schemas', translate_schema), ('ScoreTables', translate_score)):
+        for modname, tr in (('Schemas', translate_schema), ('ScoreTables', translate_score), ('SourceConsts', translate_consts)):
             changed, err = tr.regenerate(common.REPO, common.LEAN)
             gen_file = os.path.join(common.LEAN, 'BridgeVerif', 'Generated', modname + '.lean')
             if err and gen_file in closure:
@@ -325,7 +335,7 @@ def run_check(prop, tier, seed, workdir, t_start, jobs):
         # 3. audit
         audit_res, obligations, discharged = {}, 0, 0
         if build_ok:
-            audit_res, aout, arc = common.audit(prop, workdir, getattr(mod, 'AUDIT_PROPS', None))
+            audit_res, aout, arc = common.audit(prop, workdir, audit_props)
             required = list(getattr(mod, 'REQUIRED', []))
             for n in required:
                 if n not in audit_res:
